@@ -78,6 +78,7 @@ func (g *Generator) parseFields(typeName string) types.Type {
 				}
 			}
 
+			g.data.importAlias = importAliases(f.Imports)
 			g.extractTopFiels(g.Pkg(), st, &fields)
 
 			imports = buildImports(f.Imports)
